@@ -68,6 +68,7 @@ def Op.ok (s : St) (o : Op) : Bool :=
   o.refs.all (fun r => decide (r < s.units.length)) &&
   (match o with
    | .define d _ _ => d.length == s.ndim
+   | .pmul p _ => decide (p.base = 0 ↔ p.exp = 0)    -- a normalised `Prefix` object
    | _ => true)
 
 /-- The checked step the driver executes. -/
